@@ -227,6 +227,44 @@ def run(res, ctx):
                                   {"source_hex": raw.hex(), "errors": data["errors"], "exit": r["exit"], "exc": r["exc"]})
             except Exception:
                 res.violation("no report for a run containing an undecodable file", {"source_hex": raw.hex(), "exit": r["exit"], "exc": r["exc"], "out": r["out"][:200]})
+            # the same bytes piped on stdin (alone, and next to a healthy file): skipped with a reason through that channel too, the healthy file still
+            # scanned (seeded change C19-m9: the stdin entry was renamed after the loop, the skip branch then raised ValueError and no report was written)
+            for extra_targets in ([], [p2]):
+                r = C.run_cli(["-f", "json", "-q", "-"] + extra_targets, stdin_bytes=raw)
+                res.case(("undecodable-stdin", raw, len(extra_targets)), True)
+                res.count("undecodable:stdin")
+                try:
+                    data = json.loads(r["out"])
+                    skipped = [e for e in data["errors"] if e["filename"] in ("<stdin>", "-")]
+                    good = [x for x in data["results"] if x["filename"].endswith("good.py")]
+                    if r["exc"] is not None or len(skipped) != 1 or not skipped[0].get("reason") or len(good) != len(extra_targets):
+                        res.violation("source piped on stdin that its declared encoding cannot decode is not skipped with a reason (or disturbs other files)",
+                                      {"channel": "stdin", "source_hex": raw.hex(), "other_targets": len(extra_targets), "errors": data["errors"], "exit": r["exit"], "exc": r["exc"]})
+                except Exception:
+                    res.violation("no report for a run whose stdin source cannot be decoded", {"channel": "stdin", "source_hex": raw.hex(), "other_targets": len(extra_targets),
+                                                                                              "exit": r["exit"], "exc": r["exc"], "exc_msg": r.get("exc_msg"), "out": r["out"][:200]})
+        # ---- (4) one path, several versions, one process: the file channel must see the text that is in the file NOW, like the stdin channel does (seeded change
+        #      C19-m10: B613 read the source through linecache, which still held the previous version of the path)
+        vpath = scratch.fresh("versions.py", b"")
+        vers = ["x = 1\ny = 2\n", "x = 1  # \u202e hidden\ny = 2\n", "x = 1\ny = 2\nz = '\u2066 iso \u2069'\n", "import pickle\nx = 1\n", "# \u2067 first line\nimport pickle\n"]
+        for nl in ("\n", "\r\n"):
+            for k, body in enumerate(vers + vers[:2]):
+                raw = body.replace("\n", nl).encode("utf-8")
+                with open(vpath, "wb") as fh:
+                    fh.write(raw)
+                rf = C.run_cli(["-f", "json", "-q", vpath], clear_linecache=False)      # whatever the process cached for this path stays cached
+                rs = C.run_cli(["-f", "json", "-q", "-"], stdin_bytes=raw, clear_linecache=False)
+                res.case(("versions-of-one-path", nl, k), True)
+                res.count("versions-of-one-path")
+                try:
+                    ff = [x[:6] for x in findings_of_json(rf["out"])[0]]
+                    fs_ = [x[:6] for x in findings_of_json(rs["out"])[0]]
+                except Exception:
+                    res.violation("no JSON report for a rewritten file", {"version": body, "exit": [rf["exit"], rs["exit"]], "exc": [rf["exc"], rs["exc"]]})
+                    continue
+                if ff != fs_:
+                    res.violation("findings differ between file and stdin for a path that held another text earlier in the same process",
+                                  {"history": [v.replace("\n", nl) for v in (vers + vers[:2])[:k + 1]], "file": [list(x) for x in ff], "stdin": [list(x) for x in fs_]})
     finally:
         scratch.close()
         if d is not None:
